@@ -24,10 +24,12 @@ import (
 	"com.tuntun.rangers/node/src/common/ed25519"
 	"com.tuntun.rangers/node/src/common/ed25519/edwards25519"
 	"com.tuntun.rangers/node/src/consensus"
+	"com.tuntun.rangers/node/src/consensus/base"
 	"com.tuntun.rangers/node/src/consensus/groupsig"
 	"com.tuntun.rangers/node/src/consensus/logical"
 	"com.tuntun.rangers/node/src/consensus/model"
 	"com.tuntun.rangers/node/src/consensus/vrf"
+	"com.tuntun.rangers/node/src/middleware/types"
 	"verif/harness/hx"
 )
 
@@ -747,6 +749,175 @@ func curveSection(r *hx.Rng, keys []kp, thorough bool) {
 	}
 }
 
+// ---- header level: genVrfMsg / genProve / verifyBlockVRF on header objects the harness owns ----
+func refVrfMsg(random []byte, delta int) []byte {
+	msg := clone(random)
+	for delta > 1 {
+		delta--
+		msg = base.Data2CommonHash(clone(msg)).Bytes()
+	}
+	return msg
+}
+
+type hdrSnap struct{ random, prove []byte }
+
+func snapHeaders(pre, bh *types.BlockHeader) hdrSnap {
+	s := hdrSnap{random: clone(pre.Random)}
+	if bh != nil && bh.ProveValue != nil {
+		s.prove = bh.ProveValue.Bytes()
+	}
+	return s
+}
+
+func headerSection(r *hx.Rng, keys []kp, thorough bool) {
+	deltas := []int{0, 1, 2, 3, 10}
+	// (1) genVrfMsg through the hook, repeatedly on the same Random slice
+	nm := 6
+	if thorough {
+		nm = 60
+	}
+	for i := 0; i < nm; i++ {
+		L := []int{32, 32, 32, 0, 20, 64, 33}[i%7]
+		R := r.Bytes(L)
+		buf := make([]byte, L, L+64) // spare capacity: an append-based implementation may write behind len
+		copy(buf, R)
+		for _, d := range append(deltas, -1, 2, 10, 1, 3) {
+			want := refVrfMsg(R, d)
+			got := logical.VerifVRFGenVrfMsg(buf, d)
+			in := map[string]interface{}{"random": hexs(R), "delta": d, "buffer_after": hexs(buf), "returned": hexs(got), "expected": hexs(want)}
+			if !bytes.Equal(buf, R) {
+				res.Violate("C16/pure:argument-modified:genVrfMsg", "genVrfMsg changed the Random bytes it was given", in)
+				copy(buf, R)
+			}
+			if !bytes.Equal(got, want) {
+				res.Violate("C16/deterministic:genVrfMsg", "genVrfMsg(random, delta) differs from the hash chain over the same bytes (repeated call on the same slice)", in)
+			}
+			if d >= -1 && L > 0 {
+				cs.Add(fmt.Sprintf("CM %s %s %s", hx.CoqHex(R), zlit(big.NewInt(int64(d))), hx.CoqHex(got)), map[string]interface{}{"kind": "vrf-msg", "in": in})
+			}
+		}
+		res.Count("header:genVrfMsg", id([]byte("M"), R), true)
+	}
+	// (2) genProve twice and verifyBlockVRF twice on the SAME header objects, verifier with its own copy
+	nh := 12
+	if thorough {
+		nh = 150
+	}
+	t0 := time.Unix(1700000000, 0)
+	for i := 0; i < nh && i < len(keys); i++ {
+		k := keys[i]
+		R := r.Bytes(32)
+		d := []int{1, 2, 3, 10, 2, 3}[i%6]
+		castTime := t0.Add(time.Duration(d-1)*time.Duration(model.MAX_GROUP_BLOCK_TIME)*time.Second + 300*time.Millisecond)
+		miner := &model.SelfMinerInfo{VrfSK: k.sk, MinerInfo: model.MinerInfo{VrfPK: k.pk, WorkingMiners: 0}}
+		baseBH := &types.BlockHeader{Random: clone(R), CurTime: t0, Height: 5, TotalQN: 7}
+		in := map[string]interface{}{"pk": hexs(k.pk), "sk_seed": hexs(k.sk[:32]), "random": hexs(R), "delta": d, "totalStake": 1}
+		var seq []string
+		fail := func(key, what string) {
+			in2 := map[string]interface{}{"call_sequence": append([]string{}, seq...)}
+			for a, b := range in {
+				in2[a] = b
+			}
+			res.Violate(key, what, in2)
+		}
+		wantMsg := refVrfMsg(R, d)
+		wantPi := proveGuard(clone(k.pk), clone(k.sk), wantMsg)
+		var pis [][]byte
+		var qns []uint64
+		for rep := 0; rep < 2; rep++ {
+			pi, qn, err := logical.VerifVRFGenProve(miner, baseBH, 6, castTime, 1)
+			seq = append(seq, fmt.Sprintf("genProve(baseBH, castTime=t0+%v, totalStake=1) -> %s.. qn=%d err=%v", castTime.Sub(t0), hexs(pi)[:min(16, 2*len(pi))], qn, err))
+			if !bytes.Equal(baseBH.Random, R) {
+				fail("C16/pure:argument-modified:genVrfMsg", "genProve changed baseBH.Random")
+				baseBH.Random = clone(R)
+			}
+			if err != nil || !bytes.Equal(pi, wantPi) {
+				fail("C16/deterministic:genProve", fmt.Sprintf("genProve on the same base header returned %s, the proof for H^(delta-1)(Random) from fresh slices is %s", hexs(pi), hexs(wantPi)))
+			}
+			pis, qns = append(pis, pi), append(qns, qn)
+		}
+		if len(pis) == 2 && (!bytes.Equal(pis[0], pis[1]) || qns[0] != qns[1]) {
+			fail("C16/deterministic:genProve", "two genProve calls for the same base header and cast time differ")
+		}
+		// the verifier holds its own copy of the parent header; the block carries the honest proof
+		okV, qnV, _ := validate(wantPi, 5, 0, 1)
+		pre := &types.BlockHeader{Random: clone(R), CurTime: t0, Height: 5, TotalQN: 7}
+		bh := &types.BlockHeader{ProveValue: vrf.VRFProve(wantPi).Big(), CurTime: castTime, Height: 6, TotalQN: 7 + qnV}
+		castor := &model.MinerInfo{VrfPK: k.pk, WorkingMiners: 0}
+		before := snapHeaders(pre, bh)
+		for rep := 0; rep < 2; rep++ {
+			ok, err := logical.VerifVRFVerifyBlockVRF(bh, pre, castor, 1)
+			seq = append(seq, fmt.Sprintf("verifyBlockVRF(bh, preBH, castor, 1) -> %v %v", ok, err))
+			after := snapHeaders(pre, bh)
+			if !bytes.Equal(after.random, before.random) || !bytes.Equal(after.prove, before.prove) {
+				fail("C16/pure:argument-modified:genVrfMsg", "verifyBlockVRF changed the headers it was given (preBH.Random / bh.ProveValue)")
+				pre.Random = clone(R)
+			}
+			if okV && !ok {
+				fail("C16/complete:verifyBlockVRF-repeated", fmt.Sprintf("the honest, qualified proof is rejected by verifyBlockVRF on call %d for the same header pair: %v", rep+1, err))
+			}
+		}
+		res.Count(fmt.Sprintf("header:genProve+verifyBlockVRF:delta%d", d), id([]byte("H"), k.pk, R, []byte{byte(d)}), true)
+		if i == 0 {
+			res.Sample(map[string]interface{}{"kind": "header", "in": in, "calls": seq})
+		}
+
+		// (3) over-long prove values: acceptance at header level => the lottery value and qn the logical
+		// side derives from the SAME header value are those of the honest proof
+		honestOut := clone(vrf.VRFProof2Hash(wantPi))
+		_, honestQn, _ := validate(wantPi, 5, 0, 1)
+		mk := func(kind string, b []byte) {
+			pv := new(big.Int).SetBytes(b)
+			carried := pv.Bytes()
+			bh2 := &types.BlockHeader{ProveValue: pv, CurTime: castTime, Height: 6}
+			ok2, qn2, p2 := validate(carried, 5, 0, 1)
+			bh2.TotalQN = 7 + qn2
+			pre2 := &types.BlockHeader{Random: clone(R), CurTime: t0, Height: 5, TotalQN: 7}
+			acc, _ := logical.VerifVRFVerifyBlockVRF(bh2, pre2, castor, 1)
+			direct := verifyClass(k.pk, carried, wantMsg)
+			out := clone(vrf.VRFProof2Hash(vrf.VRFProve(padded(carried))))
+			hv := helperValue(pv)
+			in3 := map[string]interface{}{"pk": hexs(k.pk), "random": hexs(R), "delta": d, "honest_proof": hexs(wantPi), "prove_value_bytes": hexs(carried),
+				"kind": kind, "verifyBlockVRF": acc, "VRFVerify": direct, "lottery_value": hexs(out), "honest_lottery_value": hexs(honestOut), "qn": qn2, "honest_qn": honestQn}
+			if (acc || direct == "accept") && (!bytes.Equal(out, honestOut) || qn2 != honestQn || !ok2 || p2 != nil) {
+				res.Violate("C16/output-unique:overlong-prove-value", "a header prove value of "+fmt.Sprint(len(carried))+" bytes is accepted (verifyBlockVRF/VRFVerify) while the "+
+					"lottery value / qn read from the same value differ from those of the honest proof for this key and message", in3)
+			}
+			if (acc || direct == "accept") && len(carried) >= 32 && hv.Cmp(new(big.Int).SetBytes(honestOut)) != 0 {
+				res.Violate("C16/output-unique:overlong-prove-value", "accepted over-long prove value: VRFProve2Value reports a different lottery value than the honest proof", in3)
+			}
+			if acc != (direct == "accept" && ok2) {
+				res.Violate("C16/model-tie:verifyBlockVRF", "verifyBlockVRF differs from VRFVerify && validateProve on the same header value", in3)
+			}
+			res.Count(fmt.Sprintf("overlong:%s:accepted=%v", kind, acc), id([]byte("O"), carried, k.pk), true)
+			cs.Add(fmt.Sprintf("CO %s %s", hx.CoqHex(carried), hx.CoqHex(out)), map[string]interface{}{"kind": "overlong", "in": in3})
+		}
+		nl := 3
+		if thorough {
+			nl = 8
+		}
+		for j := 0; j < nl; j++ {
+			n := 1 + r.Intn(80)
+			if j == 0 {
+				n = 1
+			}
+			junk := r.Bytes(n)
+			if junk[0] == 0 {
+				junk[0] = 1
+			}
+			mk("suffix-junk", append(clone(wantPi), junk...))
+			mk("prefix-junk", append(clone(junk), wantPi...))
+			kk := new(big.Int).SetBytes(junk)
+			sum := new(big.Int).Add(new(big.Int).SetBytes(wantPi), new(big.Int).Lsh(kk, 640))
+			mk("plus-k-2^640", sum.Bytes())
+			if j == 1 {
+				mk("prefix+suffix", append(append(clone(junk[:1]), wantPi...), junk...))
+				mk("exact-80", clone(wantPi))
+			}
+		}
+	}
+}
+
 // ---- the qualification grid ----
 func exactQn(v *big.Int, h, wm, ts uint64, thr uint64) (ok bool, qn int64, nearBelow bool) {
 	// independent exact-arithmetic evaluation of the rule (big.Int only); qn = -1: division by zero,
@@ -898,7 +1069,8 @@ func main() {
 		"the proof encoding starts with >= 1 zero byte; an adversarial case counts when a shifted proof was built; a qn case counts when " +
 		"validateProve accepted or panicked; an isCanonical case counts when the input is a non-reduced encoding; a scalar case counts when " +
 		"s = (c*x+k) mod ell was compared for an honest proof and s + j*ell was submitted to VRFVerify; a purity case counts when the in-place/reordered " +
-		"call sequence of one key was run to the end; a curve case counts when values extracted from edwards25519 (decompression of a non-random or valid string, " +
+		"call sequence of one key was run to the end; a header case counts when genVrfMsg / genProve / verifyBlockVRF were run repeatedly on the same header objects or an over-long prove value " +
+		"went through verifyBlockVRF; a curve case counts when values extracted from edwards25519 (decompression of a non-random or valid string, " +
 		"Double/GeSub coordinates, short scalar mults, the U/V of a whole verification, shifted vs honest Gamma) were handed to the curve model")
 	cs = hx.NewCases(a.Out, "From V.C16 Require Import Model Harness.", "case", "check", 300)
 	cv = hx.NewCasesNamed(a.Out, "curve", "From V.C16 Require Import Curve CurveHarness.", "ccase", "check", 30)
@@ -1229,6 +1401,12 @@ func main() {
 				"(Coq: C16_is_canonical_go_const), so non-reduced Gamma/y encodings decode; this is what makes the value ff..ff reachable for validateProve")
 		}
 	}
+
+	// ---------- 6b. header level: genVrfMsg, genProve, verifyBlockVRF, over-long prove values ----------
+	t0 = time.Now()
+	headerSection(r, keys, thorough)
+	res.Note(fmt.Sprintf("header level: genVrfMsg on reused Random slices (delta 0,1,2,3,10), genProve and verifyBlockVRF twice on the same header objects, "+
+		"over-long prove values (suffix junk, prefix junk, + k*2^640) through verifyBlockVRF (%.1fs)", time.Since(t0).Seconds()))
 
 	// ---------- 7. curve layer ----------
 	t0 = time.Now()
